@@ -53,6 +53,8 @@ def run(prog, chk):
     consumed(prog, chk)
     from_bbox_only(prog, chk)
     transform_names(prog, chk)
+    index_is_position(prog, chk)
+    formatter_cast_guarded(prog, chk)
     X.check_sinks(prog, chk)
     X.check_readers(prog, chk)
     chk.obs = [o for o in chk.obs if o["key"] not in ("A11.sink/events::<impl std::convert::From<events::OutputEvent> for quick_xml::events::Event<'a>>::from:from_escaped:comment",)]
@@ -197,3 +199,72 @@ def transform_names(prog, chk):
     for fn in SVG_TRANSFORM_FUNCTIONS:
         ok = fn in lits or (lowered and fn.lower() in lits)
         chk.ob(ok, "A14.transform-names", fn, b.where(), f"`{fn}(..)` is recognised", f"the standard transform function `{fn}` is not matched by TransformType::from_str (arm literals {sorted(lits)}, name lower-cased before matching: {lowered}): plain SVG using it makes the transform fail")
+
+
+def index_is_position(prog, chk):
+    """InputList::from_reader: an event's `index` is its position in the event vector (inner_events / all_events /
+    tagify_events slice `events[start+1..end]` by index): every pass of the reader loop that advances the counter also
+    pushed exactly the event it read"""
+    b = prog.body("svgdx::events::InputList::from_reader")
+    chk.touch(b)
+    pushes = {bb for (bb, t, c) in b.call_sites(R.path_endswith("Vec::<T, A>::push")) if "InputEvent" in c.inst}
+    # the counter that is stored into InputEvent.index: the local incremented by one in the loop and copied into the aggregate
+    idx_locals = set()
+    for x, i, st in b.all_stmts():
+        rv = st.get("rv")
+        if rv and rv.get("k") == "aggr" and rv.get("adt") == "svgdx::events::InputEvent" and "index" in (rv.get("fnames") or []):
+            o = b.chase(rv["ops"][rv["fnames"].index("index")])
+            if o[0] == "place" and not o[1][1]:
+                idx_locals.add(o[1][0])
+    incs = []
+    for l in idx_locals:
+        incs += [bb for (bb, i, st) in R.increments_of(b, P([l, []]))]
+    if len(idx_locals) != 1 or not incs or not pushes:
+        chk.anchor_missing("A13.index-position", f"from_reader: index counter ({sorted(idx_locals)}), its increment ({incs}) or the event pushes ({len(pushes)}) not found")
+        return
+    lp = R.loop_containing(b, incs[0])
+    if lp is None:
+        chk.anchor_missing("A13.index-position", "from_reader: the counter is not advanced inside the reader loop")
+        return
+    h, blocks = lp
+    # a path header -> increment that avoids every push
+    leak = incs[0] in b.reach([h], avoid=pushes)
+    chk.ob(not leak, "A13.index-position", "from_reader", b.where(h), f"every pass that advances the event counter pushes an event first ({len(pushes)} push sites)", "from_reader can advance the event index without storing the event it read (an event kind is dropped): `index` no longer equals the position in the vector, so the content slices taken by inner_events()/all_events() are shifted - text is lost and children are hoisted out of their parents")
+
+
+def formatter_cast_guarded(prog, chk):
+    """fstr (the one number formatter of the output): the saturating `as i32` form is used only under the round-trip
+    test `x == (x as i32) as f32`, so a whole number beyond the i32 range is never printed as i32::MAX"""
+    b = prog.body("svgdx::types::fstr")
+    chk.touch(b)
+    def is_f2i(rv):
+        return rv.get("k") == "cast" and "FloatToInt" in json.dumps(rv)
+    def is_i2f(rv):
+        return rv.get("k") == "cast" and "IntToFloat" in json.dumps(rv)
+    casts = [(x, i, st) for x, i, st in b.all_stmts() if is_f2i(st.get("rv", {}))]
+    if not casts:
+        chk.anchor_missing("A7.formatter-cast", "fstr: no f32 -> i32 cast found")
+        return
+    # the guard: Eq(x, (x as i32) as f32) whose true edge dominates every *other* use of an i32 cast
+    guard = None
+    for x, i, st in b.all_stmts():
+        rv = st.get("rv")
+        if rv and rv.get("k") == "binop" and rv.get("op") == "Eq" and rv.get("aty") == "f32":
+            for sd in ("a", "b"):
+                pl = op_place(rv[sd])
+                d = b.single_def(pl[0]) if pl else None
+                if d and d[1] != R.TERM and is_i2f(d[2]):
+                    pl2 = op_place(d[2]["op"])
+                    d2 = b.single_def(pl2[0]) if pl2 else None
+                    if d2 and d2[1] != R.TERM and is_f2i(d2[2]):
+                        t = b.term(x)
+                        if t["k"] == "switch":
+                            guard = (x, R.switch_targets_bool(t)[0])
+    ok = guard is not None
+    if ok:
+        gx, gt = guard
+        for (x, i, st) in casts:
+            if x == gx:
+                continue  # the cast inside the guard itself
+            ok = ok and b.dominates(gt, x)
+    chk.ob(ok, "A7.formatter-cast", "fstr", b.where(), "the integer form is printed only when `x == (x as i32) as f32` holds", "fstr prints `(x as i32)` without the round-trip guard `x == (x as i32) as f32`: whole numbers of magnitude >= 2^31 are written as 2147483647 / -2147483648")
